@@ -35,6 +35,7 @@ func runC02(r *Run) {
 	if r.Want("window") {
 		c02Window(r)
 	}
+	c02CompletedThenConnFail(r)
 	if r.Want("yields") && !(hung && r.Only == "") {
 		// a tree on which the plain product hangs would hang here too, at 2*hangTimeout a time
 		c02Yields(r)
